@@ -219,6 +219,28 @@ func expand(h harness, tier string) []job {
 		}
 		jobs = next
 	}
+	if ov := os.Getenv("VERIF_PARAM"); ov != "" {
+		// development aid: VERIF_PARAM=N=2 overrides a parameter range
+		if k, v, ok := strings.Cut(ov, "="); ok {
+			if _, has := params[k]; has {
+				var next []job
+				seen := map[string]bool{}
+				for _, j := range jobs {
+					p := map[string]int{}
+					for a, b := range j.params {
+						p[a] = b
+					}
+					p[k], _ = strconv.Atoi(v)
+					key := fmt.Sprint(p)
+					if !seen[key] {
+						seen[key] = true
+						next = append(next, job{h: h, params: p})
+					}
+				}
+				jobs = next
+			}
+		}
+	}
 	for k := range jobs {
 		jobs[k].label = h.Func
 		for _, n := range names {
@@ -781,7 +803,20 @@ func runBMC(eng *symgo.Engine, cfg symgo.HarnessCfg, j job, tier string) (*symgo
 	}
 	to, _ := strconv.Atoi(opt(j.h, tier, "bmctimeout", "900"))
 	solver := opt(j.h, tier, "bmcsolver", "z3")
-	queries := strings.Split(opt(j.h, tier, "queries", "cut,bad,deadlock"), ",")
+	var queries []string
+	for _, q := range strings.Split(opt(j.h, tier, "queries", "cut,bad,deadlock"), ",") {
+		if q == "bad" {
+			// one query per assertion label (smaller cones, run in parallel)
+			for _, l := range b.PrimitiveLabels() {
+				queries = append(queries, "bad:prim:"+l)
+			}
+			for _, l := range b.Labels() {
+				queries = append(queries, "bad:"+l)
+			}
+			continue
+		}
+		queries = append(queries, q)
+	}
 	type qr struct {
 		q     string
 		r     string
@@ -809,8 +844,12 @@ func runBMC(eng *symgo.Engine, cfg symgo.HarnessCfg, j job, tier string) (*symgo
 		case "unsat":
 			ex.Discharged++
 		case "sat":
+			qk := o.q
+			if strings.HasPrefix(qk, "bad:") {
+				qk = "bad"
+			}
 			msg := map[string]string{"bad": "assertion failure or misuse of a channel/mutex/WaitGroup under some schedule", "deadlock": "deadlock or goroutine left behind under some schedule",
-				"cut": "a bound of the model is too small (thread path, receive or instance bound reachable)", "race": "data race: two goroutines can access the same variable at the same time, at least one writing"}[o.q]
+				"cut": "a bound of the model is too small (thread path, receive or instance bound reachable)", "race": "data race: two goroutines can access the same variable at the same time, at least one writing"}[qk]
 			last := ""
 			if len(o.trace) > 0 {
 				last = o.trace[len(o.trace)-1]
